@@ -186,10 +186,12 @@ ADDED3 = {
  "C18": ENGINE_R7,
  "C20": " Round 7: whitespace beyond ASCII between tokens (VT, FF, NO-BREAK SPACE, NEL, LINE SEPARATOR, IDEOGRAPHIC SPACE, EM SPACE).",
 }
+SEM_R8 = " Round 8: Trace_Sem.tla (impl -> spec): statements put together clause by clause to fit the column types of random table definitions (any pattern, columns of any type) over random lines; the rows the engine extracted are in the event and Sem.tla gives the statement's meaning over them (the open finding AggEmptyGroupDropped is modelled declaratively: both outcomes are admitted)."
 ADDED4 = {
- "C04": " Round 8: COUNT(DISTINCT) over more than 16 distinct values with recurrences (count-distinct-wide); generated statements on 40-64 lines over 40 values x 3 keys (gen-wide).",
+ "C03": SEM_R8,
+ "C04": SEM_R8 + " COUNT(DISTINCT) over more than 16 distinct values with recurrences (count-distinct-wide); generated statements on 40-64 lines over 40 values x 3 keys (gen-wide).",
  "C05": " Round 8: a DEFAULT on the joined table's key column (every line of the joined file, also an empty one, is a row and joins); Session.tla: the joined table defined again between two joins of one process, joins ON different columns of one joined table.",
- "C08": " Round 8: more than 16 / 32 distinct rows, each recurring later (distinct-wide, gen-wide).",
+ "C08": SEM_R8 + " More than 16 / 32 distinct rows, each recurring later (distinct-wide, gen-wide).",
  "C09": " Round 8: Cli.tla: statements cut off at the end of a text that ends in line breaks, definition files with a missing final semicolon or a second table whose pattern is no regular expression.",
  "C11": " Round 8: a table for which an empty line is a row (DEFAULT) in batch and line-by-line mode; the Reader replay.",
  "C12": " Round 8: a byte order mark at the start of a later file; Cli.tla texts ending in line breaks.",
